@@ -367,11 +367,107 @@ pub fn pipe(x: &X) -> X {
     res.unwrap_or_else(X::bad)
 }
 
+/// neg.stress: (L (N rounds) (N n) (N body_len) (N coding)) -> (L (N anomalies) (N replies) (N wrong replies))
+/// rounds times: a fresh host whose page has a cache entry with cold memo cells (one identity request), then n tasks
+/// released together on a 4-worker runtime ask for the same coding.  Anomaly: a reply that is not 200, does not carry
+/// the label, does not decode to the body, or does not carry the same buffer as the others.
+pub fn stress(x: &X) -> X {
+    let l = match x.as_l() {
+        Some(l) if l.len() == 4 => l,
+        _ => return X::bad(),
+    };
+    let (rounds, n, blen, coding) = match (l[0].as_n(), l[1].as_n(), l[2].as_n(), l[3].as_n()) {
+        (Some(a), Some(b), Some(c), Some(d)) => (a as usize, b as usize, c as usize, d),
+        _ => return X::bad(),
+    };
+    let label: &'static str = match coding {
+        0 => "gzip",
+        1 => "br",
+        2 => "zstd",
+        _ => return X::bad(),
+    };
+    let body: Vec<u8> = (0..blen).map(|i| b"lorem ipsum dolor sit amet "[i % 27]).collect();
+    let rt = tokio::runtime::Builder::new_multi_thread().worker_threads(4).enable_all().build().unwrap();
+    let mut anomalies = 0u128;
+    let mut wrong = 0u128;
+    let mut total = 0u128;
+    for _ in 0..rounds {
+        let page = Arc::new(Page { body: Bytes::from(body.clone()), ctype: Some(b"text/html".to_vec()), hce: None, status: 200, compress: true, cache: true });
+        let cfg = X::L(vec![X::L(vec![X::b("cache"), X::bool(true)]), X::L(vec![X::b("disable_ims"), X::bool(true)])]);
+        let page_for_handler = Arc::clone(&page);
+        let customize = move |_kv: &[(String, X)], host: &mut Host, _sh: &Arc<Shared>| {
+            let page = Arc::clone(&page_for_handler);
+            host.extensions.add_prepare_single("/p", prepare!(_req, _host, _path, _addr, move |page: Arc<Page>| { page_response(page) }));
+        };
+        let built = match c00pipe::build_host(&cfg, Some(&customize)) {
+            Some(b) => b,
+            None => return X::bad(),
+        };
+        let hosts = Arc::clone(&built.hosts);
+        let host_name = built.host_name.clone();
+        let replies: Option<Vec<kvarn::CacheReply>> = rt.block_on(async {
+            let addr = c00pipe::sockaddr(1);
+            {
+                let host = hosts.get_host(&host_name)?;
+                let mut q = c00pipe::make_request(&host_name, b"GET", b"/p", &header_list(Some(&X::b("identity")), &[])?, b"")?;
+                kvarn::handle_cache(&mut q, addr, host).await;
+            }
+            let barrier = Arc::new(tokio::sync::Barrier::new(n));
+            let mut tasks = Vec::new();
+            for _ in 0..n {
+                let hosts = Arc::clone(&hosts);
+                let name = host_name.clone();
+                let barrier = Arc::clone(&barrier);
+                let mut q = c00pipe::make_request(&host_name, b"GET", b"/p", &header_list(Some(&X::b(label)), &[])?, b"")?;
+                tasks.push(tokio::spawn(async move {
+                    let host = hosts.get_host(&name).unwrap();
+                    barrier.wait().await;
+                    kvarn::handle_cache(&mut q, addr, host).await
+                }));
+            }
+            let mut v = Vec::new();
+            for t in tasks {
+                match t.await {
+                    Ok(r) => v.push(r),
+                    Err(e) => {
+                        if let Ok(p) = e.try_into_panic() {
+                            let msg = p.downcast_ref::<String>().cloned().or_else(|| p.downcast_ref::<&str>().map(|s| s.to_string()));
+                            eprintln!("neg.stress: task panicked: {:?}", msg);
+                        }
+                        return None;
+                    }
+                }
+            }
+            Some(v)
+        });
+        let replies = match replies {
+            Some(r) => r,
+            None => return X::panic(),
+        };
+        let first = replies[0].response.body().clone();
+        for r in &replies {
+            total += 1;
+            let enc = r.response.headers().get("content-encoding").map(|v| v.as_bytes().to_vec());
+            let raw = r.response.body();
+            let (decoded, ok) = c00pipe::decode_body(enc.as_deref(), raw);
+            if r.response.status() != 200 || enc.as_deref() != Some(label.as_bytes()) || !ok || decoded[..] != body[..] {
+                anomalies += 1;
+                wrong += 1;
+            } else if raw.as_ptr() != first.as_ptr() || raw.len() != first.len() {
+                // decodes, but is another buffer than the first reply's: the cell was written more than once
+                anomalies += 1;
+            }
+        }
+    }
+    X::L(vec![X::N(anomalies), X::N(total), X::N(wrong)])
+}
+
 pub fn dispatch(comp: &str, x: &X) -> Option<X> {
     Some(match comp {
         "neg.list_header" => crate::guarded(|| list_header(x)),
         "neg.mime" => crate::guarded(|| mime(x)),
         "neg.pipe" => crate::guarded(|| pipe(x)),
+        "neg.stress" => crate::guarded(|| stress(x)),
         _ => return None,
     })
 }
